@@ -215,6 +215,11 @@ func (g *gen) corpus() {
 		Acts: []Act{{}, {MControl, 0, 0}, {MStatus, 401, 0}}, CloseDuring: none, Tag: "F10-401"})
 	g.add(&Case{Cfg: Cfg{Proto: 2, Creds: 1, NMedia: 2}, Steps: flowSteps(flowPlay, 2, false, false),
 		Acts: []Act{{}, {MStatus, 401, 1}, {MControl, 1, 1}}, CloseDuring: none, Tag: "F10-fragment"})
+	// F10 with SRTP: rtsps + RTP/SAVP medias, the key-management header is built from the media URL
+	g.add(&Case{Cfg: Cfg{Proto: 0, NMedia: 1, Secure: 1}, Steps: flowSteps(flowPlay, 1, false, false),
+		Acts: []Act{{}, {MControl, 0, 0}}, CloseDuring: none, Tag: "F10-secure"})
+	g.add(&Case{Cfg: Cfg{Proto: 2, Creds: 1, NMedia: 2, Secure: 1}, Steps: flowSteps(flowPlay, 2, false, false),
+		Acts: []Act{{MStatus, 401, 0}, {}, {MControl, 1, 1}}, CloseDuring: none, Tag: "F10-secure"})
 	// F11: every DESCRIBE is answered 301
 	g.add(&Case{Cfg: Cfg{Proto: 0, NMedia: 1}, Steps: flowSteps(flowPlay, 1, false, false), Forever: 1, CloseDuring: none, Tag: "F11"})
 	g.add(&Case{Cfg: Cfg{Proto: 2, Creds: 1, NMedia: 1}, Steps: flowSteps(flowPlay, 1, false, false), Forever: 1, CloseDuring: none, Tag: "F11-tcp"})
@@ -229,7 +234,7 @@ func (g *gen) corpus() {
 	g.add(&Case{Cfg: Cfg{Proto: 0, NMedia: 1}, Steps: flowSteps(flowPlay, 1, false, false), Forever: 3, CloseDuring: none, Tag: "options-404"})
 	// a redirect while the TEARDOWN of reset() needs an OPTIONS that is never answered
 	g.add(&Case{Cfg: Cfg{Proto: 2, NMedia: 1}, Steps: []Step{{Op: opDescribe}, {Op: opSetup}, {Op: opDescribe}, {Op: opOptions}},
-		Acts: []Act{{MStatus, 404, 0}, {}, {MStatus, 404, 0}, {}, {MStatus, 404, 0}, {MStatus, 301, 0}, {MSilence, 0, 0}, {MStatus, 404, 0}},
+		Acts:        []Act{{MStatus, 404, 0}, {}, {MStatus, 404, 0}, {}, {MStatus, 404, 0}, {MStatus, 301, 0}, {MSilence, 0, 0}, {MStatus, 404, 0}},
 		CloseDuring: none, Tag: "reset-teardown-timeout"})
 	// correct conversations in every configuration
 	for proto := 0; proto < 3; proto++ {
@@ -403,7 +408,7 @@ func concreteTokens(cs *Case) []int {
 	for _, a := range cs.Acts {
 		t = append(t, a.Kind, a.A, a.B)
 	}
-	return append(t, cs.Forever, cs.CloseDuring+1)
+	return append(t, cs.Forever, cs.CloseDuring+1, cs.Cfg.Secure)
 }
 
 func caseLine(cs *Case, records []reqRecord) string {
@@ -456,13 +461,17 @@ func parseCaseLine(line string) (*Case, error) {
 		for i := 0; i < ns; i++ {
 			cs.Steps = append(cs.Steps, Step{Op: next(), Arg: next()})
 		}
-		next() // token count
+		nt := next() // token count
+		_ = nt
 		na := next()
 		for i := 0; i < na; i++ {
 			cs.Acts = append(cs.Acts, Act{Kind: next(), A: next(), B: next()})
 		}
 		cs.Forever = next()
 		cs.CloseDuring = next() - 1
+		if nt > 3*na+3 {
+			cs.Cfg.Secure = next()
+		}
 		cs.Tag = "replay"
 	}()
 	return cs, err
@@ -493,8 +502,12 @@ type lockedBuf struct {
 	b  bytes.Buffer
 }
 
-func (l *lockedBuf) Write(p []byte) (int, error) { l.mu.Lock(); defer l.mu.Unlock(); return l.b.Write(p) }
-func (l *lockedBuf) String() string               { l.mu.Lock(); defer l.mu.Unlock(); return l.b.String() }
+func (l *lockedBuf) Write(p []byte) (int, error) {
+	l.mu.Lock()
+	defer l.mu.Unlock()
+	return l.b.Write(p)
+}
+func (l *lockedBuf) String() string { l.mu.Lock(); defer l.mu.Unlock(); return l.b.String() }
 
 type proc struct {
 	cmd *exec.Cmd
@@ -705,7 +718,8 @@ func classifyPanic(cs *Case, tx string) string {
 	nilDeref := strings.Contains(tx, "nil pointer dereference")
 	switch {
 	case nilDeref && hasNilURLControl(cs) &&
-		(strings.Contains(sum, "CloneWithoutCredentials") || strings.HasPrefix(strings.SplitN(sum, " @ ", 2)[1], "v5.(*Client).do ")):
+		(strings.Contains(sum, "CloneWithoutCredentials") || strings.Contains(sum, "base.(*URL).String") ||
+			strings.HasPrefix(strings.SplitN(sum, " @ ", 2)[1], "v5.(*Client).do ")):
 		return "media-url-nil-deref-panic"
 	case nilDeref && !describedFirst(cs) && strings.Contains(sum, "doDescribe") &&
 		(strings.Contains(tx, "trySwitchingProtocol") || strings.Contains(tx, ".doSetup(")):
@@ -1005,7 +1019,7 @@ func evaluate(o *outcomeRec) (e evalRes) {
 			e.failf(classifyPanic(cs, o.panicTx), "client process died (%s): %s", cs.Tag, panicSummary(o.panicTx))
 			// the model must predict the panic from the events the server emitted before it
 			// (not when the caller mixes an announced and a described session: base URLs differ)
-			cov := cs.CloseDuring < 0 && !(hasOp(cs, opAnnounce) && hasOp(cs, opDescribe))
+			cov := cs.CloseDuring < 0 && cs.Cfg.Secure == 0 && !(hasOp(cs, opAnnounce) && hasOp(cs, opDescribe))
 			for _, r := range o.records {
 				cov = cov && r.Covered
 			}
@@ -1114,7 +1128,7 @@ func evaluate(o *outcomeRec) (e evalRes) {
 	}
 
 	// --- correspondence with the model ---
-	covered := cs.CloseDuring < 0 && !(cs.Cfg.Proto == 0 && cs.Cfg.NMedia == 2 && hasIdle(cs))
+	covered := cs.CloseDuring < 0 && cs.Cfg.Secure == 0 && !(cs.Cfg.Proto == 0 && cs.Cfg.NMedia == 2 && hasIdle(cs))
 	for _, rec := range r.Records {
 		covered = covered && rec.Covered
 	}
